@@ -37,6 +37,51 @@ Proof.
   - intros Hx Hnd. now apply ev_v_sorted_F.
 Qed.
 
+(* The same for EVERY piece type: `piece` is T::arbitrary (it may fail; PolyK's never does, a nested Piecewise<..> does).
+   A failing piece fails the whole function - it is never answered with a shorter or empty function; only a panicking
+   piece decoder can make it panic. *)
+Theorem C19_wellformed_any_piece : forall (P : Type) (piece : decoder P) (bs : list Z),
+  match arb_piecewise_g piece bs with
+  | ArbErr => True
+  | ArbPanic => exists bs', piece bs' = ArbPanic
+  | ArbOk (segs, _) => segs <> [] /\ Forall (fun s => is_normalb (fst s) = true) segs /\ sorted_ends segs /\
+                  Permutation (map of_bits (fst (get_vec_f64 bs))) (map fst segs) /\
+                  Forall (fun s => exists b b', piece b = ArbOk (snd s, b')) segs
+  end.
+Proof. exact @arb_wellformed_g. Qed.
+
+(* Piecewise<Piecewise<PolyK>>: never a panic; a returned value is well-formed at both levels *)
+Theorem C19_nested : forall (n : nat) (bs : list Z),
+  match arb_nested n bs with
+  | ArbErr => True
+  | ArbPanic => False
+  | ArbOk segs => wellformed segs /\ Forall (fun s => wellformed (snd s)) segs
+  end.
+Proof. exact arb_nested_wellformed. Qed.
+
+Theorem C19_evaluable_any_piece : forall (P : Type) (piece : decoder P) (bs rest : list Z) (segs : list (seg F P))
+    (ev : seg F P -> F -> F) (nanP : F) (xs : list F),
+  arb_piecewise_g piece bs = ArbOk (segs, rest) ->
+  (forall x, pw_eval flt ev segs x <> None) /\
+  (exists l, evaluator_answers flt fle is_nanb ev segs xs = Some l /\ map Some l = map (pw_eval flt ev segs) xs) /\
+  (Forall ok xs -> nondecr flt xs ->
+   exists l, ev_v_answers flt (fun p x => ev (nanP, p) x) segs xs = Some l /\
+             map Some l = map (pw_eval flt (fun s x => ev (nanP, spoly s) x) segs) xs).
+Proof.
+  intros P piece bs rest segs ev nanP xs H. assert (W := arb_wellformed_g piece bs). rewrite H in W.
+  destruct W as (Hne & Hn & Hs & _).
+  assert (Hok : Forall (fun t : seg F P => ok (send t)) segs).
+  { eapply Forall_impl; [|exact Hn]. intros a Ha. now apply normal_ok. }
+  split; [intros x; now apply C02_total_proof|]. split.
+  - now apply evaluator_all.
+  - intros Hx Hnd. now apply ev_v_sorted_F.
+Qed.
+
+(* a nested function whose first inner end list is empty: the whole function is an error, not a function without segments *)
+Example C19_nested_inner_failure :
+  run_arbitrary_nested 1 [1; 0;0;0;0;0;0;240;63; 0; 0]%Z = [0]%Z.
+Proof. vm_compute. reflexivity. Qed.
+
 Example C19_example :
   run_arbitrary 1 [1; 0;0;0;0;0;0;0;64; 1; 0;0;0;0;0;0;240;63; 0; 0;0;0;0;0;0;8;64]%Z
   = [1; 2; 4607182418800017408; 4613937818241073152; 4611686018427387904; 0]%Z.
